@@ -860,5 +860,28 @@ pub fn work_c19(ctx: &Ctx, rep: &mut Report) {
         }
         c19_history(&h, rep);
     }
+    // state product: RIS from every combination of 14 mode/state bits x saved-context kinds
+    {
+        let total = crate::workloads::state_count();
+        let stride = if ctx.thorough { 1 } else { 8 };
+        let sizes = [(7usize, 4usize), (3, 2), (12, 5)];
+        let mut u = ctx.shard * stride + (ctx.seed as usize % stride);
+        let mut done = 0u64;
+        while u < total {
+            let (c, r) = sizes[(u / 7) % sizes.len()];
+            let mut h = History::new(c, r, if u % 3 == 0 { Some(2) } else { None });
+            h.calls.push(Call::FeedStr(crate::workloads::state_script(u, c, r)));
+            h.calls.push(Call::FeedStr(parkers[u % parkers.len()].to_string()));
+            h.meta.push(("ris_at".into(), 2));
+            h.calls.push(Call::FeedStr("\x1bc".into()));
+            for p in &pr[u % pr.len()] {
+                h.calls.push(Call::FeedStr(p.to_string()));
+            }
+            c19_history(&h, rep);
+            done += 1;
+            u += stride * ctx.nshards;
+        }
+        rep.count("state_product_resets", done);
+    }
     crate::mon::diffmon::work(ctx, rep, (6_000, 100_000), (0, 0), false);
 }
